@@ -2,7 +2,7 @@
 # usage: gen/confirm_seed.sh <PID> <k>   -- confirms a sub-agent's mutant in its scratch worktree /tmp/mut_<PID>
 # (a) suite passes with the patch, (b) demo fails with it, (c) demo passes without it
 PID=$1; K=$2; W=/tmp/mut_$PID; O=/tmp/mut_${PID}_out
-export CARGO_NET_OFFLINE=true CARGO_TARGET_DIR=/tmp/mut_confirm_target
+export CARGO_NET_OFFLINE=true CARGO_TARGET_DIR=/tmp/mut_confirm_target_$PID
 cd $W || exit 2
 git checkout -q -- . ; git clean -qfd
 git apply $O/patch$K.diff || { echo "$PID-$K: patch does not apply"; exit 2; }
